@@ -31,6 +31,10 @@ type generator struct {
 	// Imports needed for these operations, path -> alias and alias -> true
 	imports     map[string]string
 	usedAliases map[string]bool
+	// The Go names of all enum constants generated so far, mapped to the
+	// GraphQL "Enum.VALUE" they belong to; used to detect constants of
+	// different enums that would get the same Go name.
+	enumConstants map[string]string
 	// True if we've already written out the imports (in which case they can't
 	// be modified).
 	importsLocked bool
@@ -82,6 +86,7 @@ func newGenerator(
 		typeMap:       map[string]goType{},
 		imports:       map[string]string{},
 		usedAliases:   map[string]bool{},
+		enumConstants: map[string]string{},
 		templateCache: map[string]*template.Template{},
 		schema:        schema,
 		fragments:     make(map[string]*ast.FragmentDefinition, len(fragments)),
